@@ -34,6 +34,12 @@ theorem scale_out_appends (r : Int) (S : List Int) (hr : 0 ≤ r) :
 theorem scale_out_keeps (r : Int) (S : List Int) (d : Nat) (hr : 0 ≤ r) : ∀ o ∈ podOrdinals r S, o ∈ podOrdinals (r + d) S := by
   simp only [podOrdinals_eq_desired'] at *; exact desired_mono r S d hr
 
+/-- **scaling by any amount never renumbers a pod**: the desired set of the smaller replica count is a prefix of the larger
+    one's — a scale-out by `d` keeps every ordinal and adds `d` higher ones, a scale-in by `d` removes exactly the `d` highest -/
+theorem scaling_never_renumbers (r : Int) (S : List Int) (d : Nat) (hr : 0 ≤ r) :
+    ∃ L, podOrdinals (r + d) S = podOrdinals r S ++ L ∧ L.length = d ∧ ∀ o ∈ podOrdinals r S, ∀ n ∈ L, o < n := by
+  simp only [podOrdinals_eq_desired'] at *; exact desired_prefix r S d hr
+
 /-- **scale-in at slot k** (list `k`, decrement `replicas`): the desired set loses exactly `k` -/
 theorem slot_in_removes_k (r : Int) (S : List Int) (k : Int) (h1 : 1 ≤ r) (hk : k ∈ podOrdinals r S) :
     podOrdinals (r - 1) (k :: S) = (podOrdinals r S).erase k := by
